@@ -80,9 +80,20 @@ CHECKS = {
             "Trusts the AST normaliser (mc/src/astjson.rs) and the 30-line comment scanner. Comment texts are compared after trimming. "
             "Three or more simultaneous non-canonical gaps are not covered.",
             "DESIGN.md section 4 C05"),
+    "C03": ("exploration",
+            "bounded-exhaustive enumeration of value trees through the real converters against independent decoders (json, tomllib, PyYAML "
+            "parser + own YAML 1.2 core resolver)",
+            "22 scalars (integer and float extremes, non-finite floats) and ~260 strings (format-significant pool + every string of length <= 2 "
+            "(thorough 3) over 12 characters) in five positions incl. tuple key, every skeleton of depth <= 2 (3) and width <= 2 (3), every "
+            "list/tuple alternation chain to depth 5, mixed and multi-document lists and constraint values, each x {json, yaml, toml, "
+            "yamlmulti} through the registry converter and through `convert <fmt> v` in a program. The decoded document must equal the value "
+            "(numbers as exact rationals); unrepresentable values must be errors.",
+            "Trusts CPython json/tomllib, PyYAML's scanner/parser and the 40-line core-schema resolver in vf/decoders.py. TOML lists the "
+            "serializer has no form for may be refused or written correctly, not written wrongly. Strings outside the pools are not covered.",
+            "DESIGN.md section 4 C03"),
 }
 
-CLAIMED = ["C01", "C02", "C04", "C05", "C07", "C10", "C11"]
+CLAIMED = ["C01", "C02", "C03", "C04", "C05", "C07", "C10", "C11"]
 
 NOT_YET = "check not built yet in this round; design in DESIGN.md section 4 (bounded-exhaustive enumeration applies)"
 
